@@ -31,12 +31,14 @@ var (
 	errDefinitionDoesNotExistInSchema = errors.New("definition does not exist in schema")
 	errCannotGenerateReferencedType   = errors.New("cannot generate referenced type")
 	errNullSubSchema                  = errors.New("null is not a valid schema")
+	errAllOfCycle                     = errors.New("allOf refers to the schema that contains it")
 )
 
 type Generator struct {
 	caser      *text.Caser
 	config     Config
 	inScope    map[qualifiedDefinition]struct{}
+	allOfScope map[*schemas.Type]struct{}
 	outputs    map[string]*output
 	warner     func(string)
 	formatters []formatter
@@ -62,6 +64,7 @@ func New(config Config) (*Generator, error) {
 		caser:      text.NewCaser(config.Capitalizations, config.ResolveExtensions),
 		config:     config,
 		inScope:    map[qualifiedDefinition]struct{}{},
+		allOfScope: map[*schemas.Type]struct{}{},
 		outputs:    map[string]*output{},
 		warner:     config.Warner,
 		formatters: formatters,
